@@ -21,6 +21,15 @@ CHECKS = {
          'Tied to the code by running model and compiler on the full grid the property names (both tiers) in literal, variable and '
          'expression form, and on unknown-function calls incl. names that collide with internal attributes.'),
    note=BASE_NOTE + ' Float evaluation in CPython is compared with the exact model to 1e-9 relative, as the property prescribes.'),
+ 'C06': dict(category='proof',
+   technique='Lean 4 theorem model=spec by induction over the guard token list + exhaustive catalogue correspondence',
+   text=('Theorem C06: for every well-formed guard (any number of comma-separated chains, any chain length, any operator, any not) and every '
+         'argument assignment over the rationals, the model of parse_guards run on the token list the grammar builds equals the '
+         'declarative semantics "some chain has all conditions true"; C06_cmp/C06_not give each operator its arithmetic meaning and '
+         'show the stored reversed operator is the negation; C06_excl: among pairwise exclusive same-named mixins the one whose guard '
+         'holds is applied in any definition order. The model is tied to the code by the complete single-condition catalogue '
+         '(6680 guards), all truth assignments of 9 connective shapes and exclusive mixin sets in every order, in both tiers.'),
+   note=BASE_NOTE + ' Operands are numbers (units ignored by the comparison, as in the code); string-valued guards are outside the property.'),
 }
 NOT_APPLICABLE = {p: 'check under construction in this round (see DESIGN.md section 10 build order); not claimed yet' for p in
-  ['C01','C02','C03','C04','C05','C06','C07','C09','C10','C11','C12','C13','C14','C15','C16','C18','C19','C20']}
+  ['C01','C02','C03','C04','C05','C07','C09','C10','C11','C12','C13','C14','C15','C16','C18','C19','C20']}
